@@ -10,13 +10,17 @@ import (
 	"fmt"
 	"io"
 	"math/rand"
+	"net"
 	"net/http"
 	"net/http/httptest"
+	"net/url"
 	"os"
+	"os/exec"
 	"path/filepath"
 	"sort"
 	"strings"
 	"sync"
+	"time"
 
 	"github.com/folbricht/desync"
 
@@ -108,6 +112,7 @@ func main() {
 	variants := flag.Int("variants", 1, "concrete strings per class")
 	out := flag.String("out", "", "trace output")
 	dir := flag.String("dir", "", "scratch dir")
+	bin := flag.String("desync", "", "desync binary: also run the real chunk-server / index-server processes")
 	flag.Parse()
 	w, err := trace.Create(*out)
 	if err != nil {
@@ -185,7 +190,7 @@ func main() {
 									"ok": {name(sid)}, "okmissing": {name(smiss)},
 									"wrongprefix": {"/0000/" + sid + ext, "/" + sid + ext, "/x/" + sid[:4] + "/" + sid + ext},
 									"dotdot":      {"/" + sid[:4] + "/../" + sid[:4] + "/" + sid + ext, "/../sibling" + name(smiss), "/" + smiss[:4] + "/../../sibling/" + smiss[:4] + "/" + smiss + ext},
-									"encoded":     {"/%2e%2e/sibling" + name(smiss), "/" + sid[:4] + "/%2e%2e/" + sid[:4] + "/" + sid + ext},
+									"encoded":     {"/%2e%2e/sibling" + name(smiss), "/" + sid[:4] + "/%2e%2e/" + sid[:4] + "/" + sid + ext, "/%252e%252e%252fsibling" + name(smiss), "/" + sid[:4] + "/%252e%252e%252f" + sid[:4] + "%252f" + sid + ext},
 									"absolute":    {filepath.Join(sb, "sibling", smiss[:4], smiss+ext), "//" + sid[:4] + "/" + sid + ext},
 									"empty":       {"/", ""},
 									"overlong":    {name(sid + strings.Repeat("a", 300)), "/" + strings.Repeat("a/", 200)},
@@ -201,8 +206,10 @@ func main() {
 							} else {
 								// an index server reduces every path to its base name
 								paths = map[string][]string{
-									"ok":        {"/x.caibx", "/sub/x.caibx", "/../x.caibx", "/a/../../x.caibx", "//x.caibx"},
-									"okmissing": {"/y.caibx", "/../sibling/secret2.caibx", "/%2e%2e/nothing.caibx"},
+									"ok": {"/x.caibx", "/sub/x.caibx", "/../x.caibx", "/a/../../x.caibx", "//x.caibx"},
+									"okmissing": {"/y.caibx", "/../sibling/secret2.caibx", "/%2e%2e/nothing.caibx",
+										// doubly encoded: after the one decoding a server does, the base name still contains %2e / %2f
+										"/%252e%252e%252fsibling%252fsecret2.caibx", "/%252e%252e%252fsecret2.caibx", "/sub/%252e%252e%252f%252e%252e%252fsibling%252fsecret2.caibx"},
 								}
 							}
 							classes := []string{}
@@ -245,7 +252,9 @@ func main() {
 												}
 											} else {
 												target = filepath.Base(p)
-												if strings.Contains(p, "%2e") {
+												if strings.Contains(p, "%25") {
+													target, _ = url.PathUnescape(filepath.Base(p)) // decoded once: a literal name with % signs
+												} else if strings.Contains(p, "%2e") {
 													target = "nothing.caibx"
 												}
 												switch bc {
@@ -339,6 +348,9 @@ func main() {
 			}
 		}
 	}
+	if *bin != "" {
+		rows += cliServers(w, *bin, filepath.Join(*dir, "cli"), auth)
+	}
 	if err := w.Close(); err != nil {
 		fmt.Fprintln(os.Stderr, err)
 		os.Exit(2)
@@ -346,8 +358,176 @@ func main() {
 	fmt.Printf("rows=%d\n", rows)
 }
 
+// cliServers starts the real `desync chunk-server` and `desync index-server` with the authorization value configured through
+// the flag, through the environment (DESYNC_HTTP_AUTH) or not at all, read-only and writable, and sends requests with no /
+// a wrong / the right Authorization header. Store calls cannot be observed in another process: "called" stays empty and the
+// served directory is compared before and after instead.
+func cliServers(w *trace.Writer, bin, dir, auth string) int {
+	rows := 0
+	data := bytes.Repeat([]byte("cli server data "), 200)
+	for _, kind := range []string{"chunk", "index"} {
+		for _, via := range []string{"flag", "env", "none"} {
+			for _, writable := range []bool{false, true} {
+				os.RemoveAll(dir)
+				served := filepath.Join(dir, "served")
+				os.MkdirAll(served, 0755)
+				ls, err := desync.NewLocalStore(served, desync.StoreOptions{})
+				if err != nil {
+					panic(err)
+				}
+				ch := desync.NewChunk(data)
+				ls.StoreChunk(ch)
+				other := desync.NewChunk(append([]byte("other"), data...))
+				var ib bytes.Buffer
+				idx := desync.Index{Index: desync.FormatIndex{FeatureFlags: desync.CaFormatSHA512256 | desync.CaFormatExcludeNoDump, ChunkSizeMin: 16, ChunkSizeAvg: 64, ChunkSizeMax: 256 * 1024},
+					Chunks: []desync.IndexChunk{{ID: ch.ID(), Start: 0, Size: uint64(len(data))}}}
+				idx.WriteTo(&ib)
+				os.WriteFile(filepath.Join(served, "x.caibx"), ib.Bytes(), 0644)
+				l, _ := net.Listen("tcp", "127.0.0.1:0")
+				addr := l.Addr().String()
+				l.Close()
+				args := []string{kind + "-server", "-s", served, "-l", addr}
+				if writable {
+					args = append(args, "-w")
+				}
+				if kind == "chunk" {
+					args = append(args, "--skip-verify-write=false")
+				}
+				if via == "flag" {
+					args = append(args, "--authorization", auth)
+				}
+				cmd := exec.Command(bin, args...)
+				cmd.Env = append(os.Environ(), "HOME=/nonexistent")
+				if via == "env" {
+					cmd.Env = append(cmd.Env, "DESYNC_HTTP_AUTH="+auth)
+				}
+				if err := cmd.Start(); err != nil {
+					panic(err)
+				}
+				up := false
+				for i := 0; i < 200 && !up; i++ {
+					c, err := net.Dial("tcp", addr)
+					if err == nil {
+						c.Close()
+						up = true
+					} else {
+						time.Sleep(20 * time.Millisecond)
+					}
+				}
+				if !up {
+					cmd.Process.Kill()
+					fmt.Fprintln(os.Stderr, "server did not come up:", args)
+					os.Exit(2)
+				}
+				cid, oid := ch.ID(), other.ID()
+				okPath := "/" + cid.String()[:4] + "/" + cid.String() + ".cacnk"
+				putPath := "/" + oid.String()[:4] + "/" + oid.String() + ".cacnk"
+				if kind == "index" {
+					okPath, putPath = "/x.caibx", "/new.caibx"
+				}
+				for _, method := range []string{"GET", "HEAD", "PUT"} {
+					for ac, av := range map[string]string{"none": "", "wrong": "Bearer other", "right": auth, "prefix": auth + "x"} {
+						before := listDir(served)
+						p, pc, target := okPath, "ok", okPath[1:]
+						var body []byte
+						if method == "PUT" {
+							p, pc, target = putPath, "okmissing", putPath[1:]
+							if kind == "chunk" {
+								body, _ = desync.Compress(append([]byte("other"), data...))
+							} else {
+								body = ib.Bytes()
+							}
+						}
+						req, _ := http.NewRequest(method, "http://"+addr+p, bytes.NewReader(body))
+						if av != "" {
+							req.Header.Set("Authorization", av)
+						}
+						resp, err := http.DefaultClient.Do(req)
+						if err != nil {
+							cmd.Process.Kill()
+							fmt.Fprintln(os.Stderr, "request failed:", err)
+							os.Exit(2)
+						}
+						rb, _ := io.ReadAll(resp.Body)
+						resp.Body.Close()
+						after := listDir(served)
+						changed := []string{}
+						for k, v := range after {
+							if before[k] != v {
+								changed = append(changed, k)
+							}
+						}
+						for k := range before {
+							if _, ok := after[k]; !ok {
+								changed = append(changed, k)
+							}
+						}
+						dataok := false
+						if method == "GET" && resp.StatusCode == 200 {
+							if kind == "chunk" {
+								d, _ := desync.Decompress(nil, rb)
+								dataok = bytes.Equal(d, data)
+							} else {
+								dataok = bytes.Equal(rb, ib.Bytes())
+							}
+						}
+						stored := false
+						if method == "PUT" && resp.StatusCode == 200 {
+							_, err := os.Stat(filepath.Join(served, target))
+							stored = err == nil
+						}
+						w.Emit(trace.M("ev", "row", "kind", kind, "authset", via != "none", "writable", writable, "verifywrite", true, "compressed", true,
+							"method", method, "pathclass", pc, "path", "cli:"+via+":"+p, "authclass", ac, "bodyclass", "valid", "target", target, "status", resp.StatusCode,
+							"called", []string{}, "changed", changed, "outside", false, "leaked", false, "dataok", dataok, "stored", stored))
+						rows++
+						if len(changed) > 0 {
+							for _, c := range changed {
+								os.Remove(filepath.Join(served, c))
+							}
+						}
+					}
+				}
+				cmd.Process.Kill()
+				cmd.Wait()
+			}
+		}
+	}
+	return rows
+}
+
+func listDir(root string) map[string]string {
+	out := map[string]string{}
+	filepath.Walk(root, func(p string, info os.FileInfo, err error) error {
+		if err == nil && !info.IsDir() {
+			rel, _ := filepath.Rel(root, p)
+			out[rel] = fmt.Sprint(info.Size(), info.ModTime().UnixNano())
+		}
+		return nil
+	})
+	return out
+}
+
+// one decoding step, as a server does on the request line: %2e -> ".", %2f -> "/", %25 -> "%" (so that %252e -> %2e)
 func urlUnescape(p string) (string, error) {
-	p = strings.ReplaceAll(p, "%2e", ".")
-	p = strings.ReplaceAll(p, "%2f", "/")
-	return p, nil
+	var b strings.Builder
+	for i := 0; i < len(p); i++ {
+		if p[i] == '%' && i+2 < len(p)+0 && i+2 <= len(p)-1 {
+			switch strings.ToLower(p[i+1 : i+3]) {
+			case "2e":
+				b.WriteByte('.')
+				i += 2
+				continue
+			case "2f":
+				b.WriteByte('/')
+				i += 2
+				continue
+			case "25":
+				b.WriteByte('%')
+				i += 2
+				continue
+			}
+		}
+		b.WriteByte(p[i])
+	}
+	return b.String(), nil
 }
